@@ -89,6 +89,7 @@ type Contract struct {
 	Decl     *ast.FuncDecl // the real function
 	Replay   string
 	NoFrame  bool
+	Unfolds  []string
 	WithInit  bool     // the package initialisers are executed first, so that package-level tables have their values
 	Exclusive bool     // the function needs exclusive access to its receiver (writes fields that have no lock)
 	Acquires []string // mutexes (Type.field) the function may acquire, transitively
@@ -131,7 +132,7 @@ type fieldDiscipline struct {
 	Arg  string
 }
 
-var clauseKW = regexp.MustCompile(`^(func|props|requires|ensures|modifies|loop|label|inline|trusted|pure|import|replay|noframe|field|lockorder|lemma|spec|axiom|at|extern|exclusive|acquires|role|withinit)\b`)
+var clauseKW = regexp.MustCompile(`^(func|props|requires|ensures|modifies|loop|label|inline|trusted|pure|import|replay|noframe|field|lockorder|lemma|spec|axiom|at|extern|exclusive|acquires|role|withinit|unfolds)\b`)
 
 type rawContract struct {
 	header string
@@ -144,10 +145,21 @@ type rawLine struct {
 }
 
 // parseContractFile extracts //@ blocks.
+var eventKindRE = regexp.MustCompile(`(?:nevents|events)\("([^"]*)"\)|eventref\[[^\]]*\]\("([^"]*)"`)
+
 func parseContractFile(path string) (imports []string, raws []*rawContract, fileDirectives []rawLine, err error) {
 	data, err := os.ReadFile(path)
 	if err != nil {
 		return nil, nil, nil, err
+	}
+	// every event kind named in a contract is part of the ghost state, so that
+	// `modifies events("*")` covers it even before the first event of that kind
+	for _, m := range eventKindRE.FindAllStringSubmatch(string(data), -1) {
+		k := m[1] + m[2]
+		if k != "" && k != "*" {
+			heapSorts["ghost|ev."+k+".n"] = SBV(64)
+			heapSorts["ghost|ev."+k+".ref"] = SArr(SBV(64), SRef)
+		}
 	}
 	var cur *rawContract
 	var axioms *rawContract
@@ -522,6 +534,10 @@ func buildStub(rc *rawContract, file string) (*Contract, string, error) {
 			ct.Props = strings.Fields(rest)
 		case "inline":
 			ct.Inline = true
+		case "unfolds":
+			// unfolds F G: calls of these functions are executed by their bodies
+			// here, not replaced by their (trusted) contracts
+			ct.Unfolds = append(ct.Unfolds, strings.Fields(rest)...)
 		case "trusted":
 			ct.Trusted = true
 		case "pure":
